@@ -129,7 +129,12 @@ class Injector:
             for _ in range(occ + 1):
                 pos = seg.find(anchor, pos + 1)
                 if pos < 0:
-                    raise ExtractError('anchor lost in %s: %r' % (qual, anchor))
+                    # the text of this function changed under a proof annotation: the annotation is dropped, the function keeps its
+                    # contract (callers are unaffected) and its own obligation is reported undecided by the driver
+                    if not hasattr(self.trace, 'lost'):
+                        raise ExtractError('anchor lost in %s: %r' % (qual, anchor))
+                    self.trace.lost.setdefault(qual, []).append(anchor)
+                    return
             if before:
                 ls = seg.rfind('\n', 0, pos) + 1
                 seg = seg[:ls] + proof.rstrip('\n') + '\n' + seg[ls:]
@@ -143,7 +148,10 @@ class Injector:
         seg = self.s[i:k]
         pos = seg.find(anchor)
         if pos < 0:
-            raise ExtractError('loop anchor lost in %s: %r' % (qual, anchor))
+            if not hasattr(self.trace, 'lost'):
+                raise ExtractError('loop anchor lost in %s: %r' % (qual, anchor))
+            self.trace.lost.setdefault(qual, []).append(anchor)
+            return
         pos += len(anchor)
         seg = seg[:pos] + '\n' + inv.strip('\n') + '\n        ' + seg[pos:]
         self.s = self.s[:i] + seg + self.s[k:]
